@@ -51,6 +51,7 @@ def enabled(prefix):
         out.append(('rel', 'JE', i))
     for i in blocks:
         out.append(('grow', i))
+        out.append(('grow', i, 3))     # on a channel that is not yet used anywhere
     out += [('apply',), ('flatten',), ('nest',), ('setreg', 5.0), ('setrep', 3)]
     if inside:
         out.append(('exit',))
